@@ -3,6 +3,7 @@
   commute with the colour mirror (vertical flip of square and occupancy).  Statement only; proof in Lemmas/MirrorSlider.lean.
 -/
 import ChessVerif.Lemmas.MirrorSlider
+import ChessVerif.Lemmas.MirrorEval
 namespace Chess.Props
 
 /-- C11 ⇒ mirror law of the slider attacks: for every square and every pair of occupancies that are flips of each other, the bishop,
@@ -14,5 +15,13 @@ theorem C11_slider_mirror (sq : Nat) (hs : sq < 64) (occ occ' : BB) (h : MirrorB
 
 /-- non-vacuity: an occupancy and its flip -/
 example : MirrorBB 0x0000000000001001 0x0110000000000000 := mirB_sound (by decide +kernel)
+
+/-- … and with it the attack map of a whole side: `attacked_squares` (movegen.cpp; the squares attacked by the opponent of `c`: pawn
+    attack sets, knight and king masks, bishop/rook/queen lookups over the occupancy) of the colour-mirrored position and the other
+    colour is the flip of `attacked_squares` of the position — for every board with codes in range and one king of the attacking
+    colour (Lemmas/MirrorEval.lean; unions over a permutation of the squares, `MirrorBB.union_eq`) -/
+theorem C11_attacked_squares_mirror (p q : Position) (m : MirrorPos p q) (c : Nat) (hc : c ≤ 1) (ko : Nat) (hko : KingAt p.board (1 - c) ko) :
+    MirrorBB (attackedSquares (BBs.of p) p.board c) (attackedSquares (BBs.of q) q.board (1 - c)) :=
+  attackedSquares_mirror m c hc ko hko
 
 end Chess.Props
